@@ -38,6 +38,11 @@ var CollateFuncs = map[string]func(string, string) int{
 				}
 				return 1
 			}
+			if ca == 0 {
+				// SQLite compares with sqlite3_strnicmp, which stops at a NUL
+				// byte: what follows it only counts through the length.
+				break
+			}
 		}
 		return cmpInt64(int64(len(a)), int64(len(b)))
 	},
